@@ -143,6 +143,24 @@ func (e *Engine) intrinsic(s *State, f *Frame, call *ssa.Call, fn *ssa.Function,
 		id := e.alloc(s, &StructV{F: []Value{args[0], args[1], args[2]}})
 		set(IfaceV{T: types.NewPointer(vt), V: PtrV{Obj: id}})
 		return true
+	case "google.golang.org/protobuf/proto.Clone":
+		iv := args[0].(IfaceV)
+		if iv.T == nil {
+			set(iv)
+			return true
+		}
+		e.Stubs["proto.Clone: generic deep copy of the message's Go value"] = true
+		set(IfaceV{T: iv.T, V: e.deepCopy(s, iv.V, iv.T, map[int]int{})})
+		return true
+	case "google.golang.org/protobuf/proto.Equal":
+		a, b := args[0].(IfaceV), args[1].(IfaceV)
+		e.Stubs["proto.Equal: generic deep equality (nil and empty repeated fields equal)"] = true
+		if a.T == nil || b.T == nil {
+			set(Bool(a.T == nil && b.T == nil))
+			return true
+		}
+		set(e.deepEqual(s, a.V, b.V, a.T, false, 0))
+		return true
 	case "context.WithCancel", "context.WithTimeout", "context.WithDeadline":
 		e.Stubs[name+": returns parent context and a no-op cancel"] = true
 		set(TupleV{args[0], FuncV{Native: "noop"}})
